@@ -22,16 +22,21 @@
   (`strSerializeW`, `strDeserializeV`, `strRoundTrip`; `zoneText off` = `Z` for zero, else `+hh:mm`);
   Spec/TextFormsSpec.lean is the text of each value (`dateTextOf`, `timeText`, `naiveText 84` = date `T` time,
   `WholeMinute`); `DateInv` / `TStrict` (a leap second only on second :59) / `ZInv` are the invariants of C09.
+  Whole domain (section "the whole domain of the string forms"): Spec/SerdeStrAnySpec.lean (`roundMin`,
+  `zoneTextAny`, `shownTime`, `shownWallSecs`), Spec/ZonedSpec.lean (`wallSecs`, `InRangeSecs`); helper lemmas
+  Proofs/SerdeAnyFin.lean, SerdeAnyL.lean, SerdeAnyZonedL.lean, SerdeVisitL.lean.
 -/
 import Chrono.Proofs.SerdeL
 import Chrono.Proofs.SerdeStrL
 import Chrono.Model.SerdeStr
 import Chrono.Extracted.SerdeLits
 import Chrono.Props.C19
+import Chrono.Proofs.SerdeAnyZonedL
+import Chrono.Proofs.SerdeVisitL
 
 namespace Chrono.Props.C20
 open Chrono Chrono.M Chrono.M.Serde Chrono.Spec Chrono.Spec.Ts Chrono.Spec.Serde Chrono.Proofs.Serde
-open Chrono.Proofs.Ts Chrono.Extracted Chrono.Spec.Text Chrono.Proofs.SerdeStr
+open Chrono.Proofs.Ts Chrono.Extracted Chrono.Spec.Text Chrono.Proofs.SerdeStr Chrono.Proofs.SerdeAny
 
 /-! ## data tie -/
 
@@ -152,6 +157,63 @@ theorem ts_exact_leap (tg : Target) (dt : NaiveDT) (h : NDTInv dt) :
   · exact ⟨by show (NaiveDT.timestamp dt).bind _ = _; rw [a1]; rfl,
       by show (NaiveDT.timestamp_millis dt).bind _ = _; rw [a2]; rfl,
       by show (NaiveDT.timestamp_micros dt).bind _ = _; rw [a3]; rfl⟩
+
+
+/-- leap-second representations, the remaining modules (audit LOW-2): the nanosecond modules write the
+position on the nanosecond line `instNs` (the fraction field ≥ 10⁹ counted as it is) when it fits `i64` and
+refuse otherwise; every `_option` module writes `Some` of what its plain module writes; never a panic -/
+theorem ts_exact_leap_full (tg : Target) (dt : NaiveDT) (h : NDTInv dt) :
+    serialize tg .nanos dt = .ok ((if isI64 (instNs dt) then SR.ok (instNs dt) else SR.err).map .i64) ∧
+    serialize_option tg .secs (some dt) = .ok (.ok (.some (instSecs dt))) ∧
+    serialize_option tg .millis (some dt) = .ok (.ok (.some (instNs dt / 1000000))) ∧
+    serialize_option tg .micros (some dt) = .ok (.ok (.some (instNs dt / 1000))) ∧
+    serialize_option tg .nanos (some dt) =
+      .ok ((if isI64 (instNs dt) then SR.ok (instNs dt) else SR.err).map .some) ∧
+    serialize_option tg .nanos none = .ok (.ok .none) := by
+  have a1 := timestamp_spec dt h
+  have a2 := timestamp_millis_spec dt h
+  have a3 := timestamp_micros_spec dt h
+  have a4 : NaiveDT.timestamp_nanos_opt dt = .ok (optI64 (instNs dt)) := by
+    unfold NaiveDT.timestamp_nanos_opt
+    rw [a1]
+    rfl
+  have hin : ∀ x : Int, inI64 x = true ↔ isI64 x := by
+    intro x
+    unfold inI64 isI64
+    have e1 : I64_MIN = -9223372036854775808 := rfl
+    have e2 : I64_MAX = 9223372036854775807 := rfl
+    simp only [Bool.and_eq_true, decide_eq_true_eq, e1, e2]
+  have n1 : (NaiveDT.timestamp_nanos_opt dt).bind (fun o => match ok_or o with
+      | .ok n => Res.ok (SR.ok (SOut.i64 n)) | .err => Res.ok SR.err) =
+      .ok ((if isI64 (instNs dt) then SR.ok (instNs dt) else SR.err).map .i64) := by
+    rw [a4]; unfold optI64
+    by_cases hi : isI64 (instNs dt)
+    · rw [if_pos hi, if_pos ((hin _).mpr hi)]; rfl
+    · rw [if_neg hi, if_neg (fun hh => hi ((hin _).mp hh))]; rfl
+  have n2 : (NaiveDT.timestamp_nanos_opt dt).bind (fun o => match ok_or o with
+      | .ok n => Res.ok (SR.ok (SOut.some n)) | .err => Res.ok SR.err) =
+      .ok ((if isI64 (instNs dt) then SR.ok (instNs dt) else SR.err).map .some) := by
+    rw [a4]; unfold optI64
+    by_cases hi : isI64 (instNs dt)
+    · rw [if_pos hi, if_pos ((hin _).mpr hi)]; rfl
+    · rw [if_neg hi, if_neg (fun hh => hi ((hin _).mp hh))]; rfl
+  cases tg
+  · exact ⟨n1, by show (NaiveDT.timestamp dt).bind _ = _; rw [a1]; rfl,
+      by show (NaiveDT.timestamp_millis dt).bind _ = _; rw [a2]; rfl,
+      by show (NaiveDT.timestamp_micros dt).bind _ = _; rw [a3]; rfl, n2, rfl⟩
+  · exact ⟨n1, by show (NaiveDT.timestamp dt).bind _ = _; rw [a1]; rfl,
+      by show (NaiveDT.timestamp_millis dt).bind _ = _; rw [a2]; rfl,
+      by show (NaiveDT.timestamp_micros dt).bind _ = _; rw [a3]; rfl, n2, rfl⟩
+
+/-- non-vacuity: the leap second 2015-06-30T23:59:60.5 in the nanosecond modules and an option module; a leap
+representation in the last second before the 64-bit nanosecond window closes is refused -/
+example :
+    NDTInv ⟨dateOfYo 2015 181, ⟨86399, 1500000000⟩⟩ ∧
+    serialize .utc .nanos ⟨dateOfYo 2015 181, ⟨86399, 1500000000⟩⟩ = .ok (.ok (.i64 1435708800500000000)) ∧
+    serialize_option .naive .millis (some ⟨dateOfYo 2015 181, ⟨86399, 1500000000⟩⟩) = .ok (.ok (.some 1435708800500)) ∧
+    serialize_option .utc .nanos (some ⟨dateOfYo 2262 101, ⟨85636, 1854775808⟩⟩) = .ok .err := by
+  unfold NDTInv
+  decide +kernel
 
 /-! ## the sixteen timestamp modules: what is read -/
 
@@ -389,6 +451,20 @@ theorem delta_roundtrip (d : Delta) (h : DInv d) :
   · show TimeDelta.deserialize (d.secs, d.nanos) = .ok d
     rw [delta_de_eq d.secs d.nanos (by unfold isI32; omega), if_pos ⟨h0, h1, by unfold nsInRange NS_MAX; omega⟩]
 
+
+/-- the same end to end through ANY tuple format that hands a pair fitting `(i64, i32)` back unchanged
+(audit LOW-4: the carrier is now a parameter with a stated trusted behaviour, like the integer and text
+formats): every valid duration comes back as itself -/
+theorem delta_format_roundtrip (F : PairFormat) (hF : F.Faithful) (d : Delta) (h : DInv d) :
+    deltaRoundTrip F d = .ok d := by
+  obtain ⟨a, b, c⟩ := delta_roundtrip d h
+  unfold deltaRoundTrip
+  have : F.getPair (F.putPair (TimeDelta.serialize d)) = some (TimeDelta.serialize d) := hF _ _ a b
+  rw [this]
+  exact c
+
+example : (⟨Int × Int, id, some⟩ : PairFormat).Faithful := fun _ _ _ _ => rfl
+
 /-- reading any `(i64, i32)` pair: accepted exactly when the nanosecond field is in `0 .. 10⁹` and the
 value lies within ±(2⁶³−1) ms, then it is that value and valid; otherwise an error (never a panic: the
 result type has no such case; a negative `i32` nanosecond field becomes a large `u32` and is refused) -/
@@ -419,6 +495,38 @@ theorem names_roundtrip (F : StrFormat) (hF : F.Faithful) :
   · intro m
     unfold strDeserialize strSerialize
     rw [hF]; dsimp only; rw [C19.month_parse_name]; rfl
+
+
+/-- reading weekday / month names from ARBITRARY text through any faithful text format (`Deserialize for
+Weekday` / `Month` = `visit_str` = `FromStr`): accepted as `w` exactly when the text, lower-cased, is the
+three-letter or the full English name of `w` (`Spec.weekdayShort/Long`, `monthShort/Long`; so `"MONDAY"`,
+`"mon"`, `"Mon"` all read as Monday and `"Mo"`, `"Mond"`, `" Mon"` are refused); what `Serialize` writes is one
+of these (`names_roundtrip`).  The result type has no panic. -/
+theorem names_deserialize_iff (F : StrFormat) (hF : F.Faithful) (s : List Nat) :
+    (∀ w : Weekday, strDeserialize F Weekday.parse (F.putStr s) = .ok w ↔
+      (lowerS s = weekdayShort w ∨ lowerS s = weekdayLong w)) ∧
+    (∀ m : Month, strDeserialize F Month.parse (F.putStr s) = .ok m ↔
+      (lowerS s = monthShort m ∨ lowerS s = monthLong m)) := by
+  constructor
+  · intro w
+    unfold strDeserialize
+    rw [hF, ← C19.weekday_parse_iff]
+    dsimp only
+    cases Weekday.parse s with
+    | none => exact ⟨fun h => (by cases h), fun h => (by cases h)⟩
+    | some v => exact ⟨fun h => (by injection h with h; rw [h]), fun h => (by injection h with h; rw [h]; rfl)⟩
+  · intro m
+    unfold strDeserialize
+    rw [hF, ← C19.month_parse_iff]
+    dsimp only
+    cases Month.parse s with
+    | none => exact ⟨fun h => (by cases h), fun h => (by cases h)⟩
+    | some v => exact ⟨fun h => (by injection h with h; rw [h]), fun h => (by injection h with h; rw [h]; rfl)⟩
+
+
+example : lowerS (asciiBytes "MONDAY") = weekdayLong .mon ∧ lowerS (asciiBytes "sEp") = monthShort .sep ∧
+    lowerS (asciiBytes "Mond") ≠ weekdayLong .mon ∧ lowerS (asciiBytes "Mond") ≠ weekdayShort .mon := by
+  decide
 
 /-! ## zone-aware date-times: what the writer cannot express (witnesses of the known findings) -/
 
@@ -467,9 +575,10 @@ theorem string_forms_roundtrip_date (F : StrFormat) (hF : F.Faithful) (d : Date)
 
 /-- **NaiveTime** through any faithful text format (`collect_str(&self)`: `Display`, which forwards to
 `Debug` = `TextForms.time_debug`; `visit_str` = `FromStr` = `TextForms.time_from_str`).  Domain: every time
-of day whose leap-second representation, if any, sits on a second :59 (`TStrict`, the domain of C09; the
-values the public constructors build).  A nanosecond field ≥ 10⁹ on another second prints as the following
-second and does not come back — known finding F22, excluded by `TStrict`. -/
+of day whose leap-second representation, if any, sits on a second :59 (`TStrict`, the domain of C09: what
+`from_hms_nano_opt` and the parsers build; `Timelike::with_nanosecond` can put a nanosecond field ≥ 10⁹ on any
+second).  Such a value prints as the following second and does not come back — known finding F22, excluded
+here by `TStrict` and characterised for every such value by `time_roundtrip_nonstrict` / `time_roundtrip_any`. -/
 theorem string_forms_roundtrip_time (F : StrFormat) (hF : F.Faithful) (t : Time) (ht : TStrict t) :
     strSerializeW F NaiveTimeStr.serialize t = .ok (.ok (F.putStr (timeText t))) ∧
     strRoundTrip F NaiveTimeStr.serialize NaiveTimeStr.visit_str t = .ok (.ok t) := by
@@ -561,6 +670,354 @@ theorem datetime_outside_domain_comes_back_different :
   · unfold WholeMinute; decide
   · decide +kernel
   · decide +kernel
+
+
+/-! ## the whole domain of the string forms (audit gaps HIGH-1, MEDIUM-1, MEDIUM-2, LOW-1)
+
+Vocabulary (Spec/SerdeStrAnySpec.lean): `shownTime t` = `t`, except that a leap-second representation on a
+second other than :59 (only `with_nanosecond` builds one) is the following second with the fraction reduced by
+10⁹ — the same point of the nanosecond line; `roundMin off` = the offset with its magnitude rounded to whole
+minutes (half up); `zoneTextAny off` = `Z` for zero, else the sign of `off` and `hh:mm` of `roundMin off`;
+`shownWallSecs z` / `shownWallFrac z` = the wall-clock second / fraction field as shown (`shownTime`);
+`wallSecs`, `InRangeSecs`, `ZInv`, `wallNs`, `zonedInstNs`: Spec/ZonedSpec.lean, Spec/InstantSpec.lean. -/
+
+/-- **NaiveTime, every well-formed value** (leap representation on any second): serializing stores the text of
+the time as shown, and the round trip gives `shownTime t` — `t` itself exactly when `t` is in the domain of
+`string_forms_roundtrip_time`, and in every case the same position on the nanosecond line of the day -/
+theorem time_roundtrip_any (F : StrFormat) (hF : F.Faithful) (t : Time) (ht : TValid t) :
+    strSerializeW F NaiveTimeStr.serialize t = .ok (.ok (F.putStr (timeText (shownTime t)))) ∧
+    strRoundTrip F NaiveTimeStr.serialize NaiveTimeStr.visit_str t = .ok (.ok (shownTime t)) ∧
+    pos (shownTime t) = pos t ∧ (shownTime t = t ↔ TStrict t) := by
+  have hw : NaiveTimeStr.serialize t = Format.wok (timeText (shownTime t)) := by
+    rw [← timeText_shown t ht]; exact Chrono.Proofs.TextForms.time_debug_text t ht
+  have hr := Chrono.Proofs.TextForms.time_roundtrip (shownTime t) (shownTime_strict t ht)
+  obtain ⟨a, _, c⟩ := glue_roundtrip F hF NaiveTimeStr.serialize NaiveTimeStr.visit_str t (shownTime t) _ hw
+    (visitOf_ok (.ok (TextForms.time_from_str (timeText (shownTime t)))) _ (by rw [hr]))
+  refine ⟨a, c, ?_, ⟨fun h => by rw [← h]; exact shownTime_strict t ht, shownTime_of_strict t⟩⟩
+  obtain ⟨ss, sf⟩ := shown_secs_frac t
+  unfold pos
+  rw [ss, sf]
+  split <;> omega
+
+/-- **F22 characterised (NaiveTime)**: a leap-second representation on a second other than :59 is read back
+as the following second with the fraction reduced by 10⁹ — a different value (the finding), the same position
+on the line.  Together with `string_forms_roundtrip_time` this covers every `NaiveTime`. -/
+theorem time_roundtrip_nonstrict (F : StrFormat) (hF : F.Faithful) (t : Time) (ht : TValid t)
+    (hn : ¬ TStrict t) :
+    strRoundTrip F NaiveTimeStr.serialize NaiveTimeStr.visit_str t =
+      .ok (.ok ⟨t.secs + 1, t.frac - 1000000000⟩) ∧
+    (⟨t.secs + 1, t.frac - 1000000000⟩ : Time) ≠ t ∧ TStrict ⟨t.secs + 1, t.frac - 1000000000⟩ := by
+  obtain ⟨_, b, _, _⟩ := time_roundtrip_any F hF t ht
+  have hs := shownTime_strict t ht
+  rw [shownTime_nonstrict t ht hn] at b hs
+  refine ⟨b, ?_, hs⟩
+  intro h
+  have : t.secs + 1 = t.secs := congrArg Time.secs h
+  omega
+
+/-- **NaiveDateTime, every valid value**: the round trip gives the same date with the time as shown; the same
+instant (`instNs`) in every case, the same value exactly when the leap condition `TStrict` holds -/
+theorem naive_roundtrip_any (F : StrFormat) (hF : F.Faithful) (dt : NaiveDT) (h : NDTInv dt) :
+    strSerializeW F NaiveDateTimeStr.serialize dt = .ok (.ok (F.putStr (naiveText 84 dt))) ∧
+    strRoundTrip F NaiveDateTimeStr.serialize NaiveDateTimeStr.visit_str dt =
+      .ok (.ok ⟨dt.date, shownTime dt.time⟩) ∧
+    instNs ⟨dt.date, shownTime dt.time⟩ = instNs dt ∧
+    ((⟨dt.date, shownTime dt.time⟩ : NaiveDT) = dt ↔ TStrict dt.time) := by
+  obtain ⟨hvd, he, ht, _⟩ := Chrono.Proofs.TextForms.naive_of_inv dt h
+  have hw : NaiveDateTimeStr.serialize dt = Format.wok (naiveText 84 dt) := by
+    rw [ht]
+    conv => lhs; rw [he]
+    exact Chrono.Proofs.TextForms.naive_debug_text _ _ hvd _ h.2
+  have hr : NaiveDateTimeStr.visit_str (naiveText 84 dt) = .ok (.ok ⟨dt.date, shownTime dt.time⟩) := by
+    rw [ht, timeText_shown dt.time h.2]
+    have hd : dt.date = dateOfYo dt.date.year dt.date.ordinal.toNat := congrArg NaiveDT.date he
+    conv => rhs; rw [hd]
+    exact visitOf_ok _ _ (Chrono.Proofs.TextForms.naive_debug_roundtrip _ _ hvd _ (shownTime_strict dt.time h.2))
+  obtain ⟨a, _, c⟩ := glue_roundtrip F hF NaiveDateTimeStr.serialize NaiveDateTimeStr.visit_str dt _ _ hw hr
+  obtain ⟨ss, sf⟩ := shown_secs_frac dt.time
+  refine ⟨a, c, ?_, ⟨fun hh => ?_, fun hh => ?_⟩⟩
+  · unfold instNs instSecs
+    dsimp only
+    rw [ss, sf]
+    split <;> omega
+  · have := congrArg NaiveDT.time hh
+    dsimp only at this
+    rw [← this]; exact shownTime_strict dt.time h.2
+  · rw [shownTime_of_strict dt.time hh]
+
+/-- **F22 characterised (NaiveDateTime)** -/
+theorem naive_roundtrip_nonstrict (F : StrFormat) (hF : F.Faithful) (dt : NaiveDT) (h : NDTInv dt)
+    (hn : ¬ TStrict dt.time) :
+    strRoundTrip F NaiveDateTimeStr.serialize NaiveDateTimeStr.visit_str dt =
+      .ok (.ok ⟨dt.date, ⟨dt.time.secs + 1, dt.time.frac - 1000000000⟩⟩) ∧
+    instNs ⟨dt.date, ⟨dt.time.secs + 1, dt.time.frac - 1000000000⟩⟩ = instNs dt := by
+  obtain ⟨_, b, c, _⟩ := naive_roundtrip_any F hF dt h
+  rw [shownTime_nonstrict dt.time h.2 hn] at b c
+  exact ⟨b, c⟩
+
+/-- **DateTime<Tz>, every value whose wall clock is inside `NaiveDate`'s range — ANY offset of less than a
+day (seconds part included), ANY well-formed time of day.**  This is what the round trip does where
+`string_forms_roundtrip_datetime` is silent (known findings F20, F22, F23, F24 as one universal statement):
+  * serializing succeeds (no error, no panic) and stores the wall clock `l` (the valid naive date-time
+    `wallSecs z` seconds after the epoch with `z`'s fraction field) as date `T` time, then `zoneTextAny`;
+  * deserializing never panics; it answers `Err` EXACTLY when the rounded offset is a whole day (`±24:00`,
+    F23) or the shown wall clock minus the rounded offset leaves the representable range (F24);
+  * otherwise the value read as `DateTime<FixedOffset>` has the ROUNDED offset and the SAME wall clock
+    (`wallNs`), hence an instant moved by exactly `off − roundMin off` seconds — at most 30 s either way, zero
+    when the offset is a whole number of minutes; it is the unique valid value with that offset whose UTC
+    reading is at second `shownWallSecs z − roundMin off` with fraction field `shownWallFrac z`;
+  * read as `DateTime<Utc>` it is that instant at offset zero. -/
+theorem datetime_roundtrip_any_offset (F : StrFormat) (hF : F.Faithful) (z : Zoned) (hz : ZInv z)
+    (hw : InRangeSecs (wallSecs z)) :
+    (∃ l, NDTInv l ∧ instSecs l = wallSecs z ∧ l.time.frac = z.utc.time.frac ∧
+      strSerializeW F DateTimeStr.serialize z = .ok (.ok (F.putStr (naiveText 84 l ++ zoneTextAny z.off)))) ∧
+    (∃ r, strRoundTrip F DateTimeStr.serialize DateTimeStr.deserialize_fixed z = .ok r ∧
+      strRoundTrip F DateTimeStr.serialize DateTimeStr.deserialize_utc z =
+        .ok (r.map fun z' => z'.with_timezone 0) ∧
+      (r = .err ↔ (86400 ≤ (roundMin z.off).natAbs ∨ ¬ InRangeSecs (shownWallSecs z - roundMin z.off))) ∧
+      (∀ z', r = .ok z' → z'.off = roundMin z.off ∧ ZInv z' ∧
+        instSecs z'.utc = shownWallSecs z - roundMin z.off ∧ z'.utc.time.frac = shownWallFrac z ∧
+        wallNs z' = wallNs z ∧
+        zonedInstNs z' = zonedInstNs z + (z.off - roundMin z.off) * 1000000000)) ∧
+    (-30 ≤ z.off - roundMin z.off ∧ z.off - roundMin z.off ≤ 30 ∧ (z.off % 60 = 0 → roundMin z.off = z.off)) := by
+  obtain ⟨l, text, l1, l2, l3, _, hser, htext, r, hr, riff, rok⟩ := serde_rt_in_range z hz hw
+  obtain ⟨b1, b2, _, b4, b5⟩ := roundMin_bounds z.off hz.2
+  have h1 : strSerializeW F DateTimeStr.serialize z = .ok (.ok (F.putStr text)) := by
+    unfold strSerializeW; rw [hser]; rfl
+  have h2 : ∀ (v : List Nat → Res (SR Zoned)),
+      strRoundTrip F DateTimeStr.serialize v z = v text := by
+    intro v
+    unfold strRoundTrip
+    rw [h1]
+    show strDeserializeV F v (F.putStr text) = _
+    unfold strDeserializeV
+    rw [hF]
+  refine ⟨⟨l, l1, l2, l3, by rw [h1, htext]⟩, ⟨r, ?_, ?_, riff, ?_⟩, b4, b5, roundMin_whole z.off⟩
+  · rw [h2]; exact hr
+  · rw [h2]; unfold DateTimeStr.deserialize_utc; rw [hr]; rfl
+  · intro z' hz'
+    obtain ⟨c1, c2, c3, c4⟩ := rok z' hz'
+    have hoff : OffValid z'.off := by
+      rw [c1]
+      by_contra hc
+      have : r = .err := riff.mpr (Or.inl (by unfold OffValid at hc; omega))
+      rw [this] at hz'; cases hz'
+    have hshown : shownWallSecs z * 1000000000 + shownWallFrac z = wallSecs z * 1000000000 + z.utc.time.frac := by
+      unfold shownWallSecs shownWallFrac
+      split <;> omega
+    refine ⟨c1, ⟨c2, hoff⟩, c3, c4, ?_, ?_⟩
+    · unfold wallNs instNs
+      rw [c3, c4, c1]
+      unfold wallSecs at hshown
+      generalize shownWallSecs z = S at *
+      generalize shownWallFrac z = Fr at *
+      omega
+    · unfold zonedInstNs instNs
+      rw [c3, c4]
+      unfold wallSecs at hshown
+      generalize shownWallSecs z = S at *
+      generalize shownWallFrac z = Fr at *
+      omega
+
+/-- **the instant clause of the property for whole-minute offsets, WITHOUT the leap condition**: for every
+zone-aware value with a whole-minute offset whose wall clock is inside `NaiveDate`'s range — leap
+representation on any second — the round trip succeeds and gives the same instant (`zonedInstNs`) with the
+same offset, into both targets.  So a leap representation off second :59 (F22) violates only the clause
+"the original value" of the naive types, not the zone-aware clause "the same instant". -/
+theorem datetime_roundtrip_instant (F : StrFormat) (hF : F.Faithful) (z : Zoned) (hz : ZInv z)
+    (hm : z.off % 60 = 0) (hw : InRangeSecs (wallSecs z)) :
+    ∃ z', strRoundTrip F DateTimeStr.serialize DateTimeStr.deserialize_fixed z = .ok (.ok z') ∧
+      strRoundTrip F DateTimeStr.serialize DateTimeStr.deserialize_utc z = .ok (.ok ⟨z'.utc, 0⟩) ∧
+      z'.off = z.off ∧ ZInv z' ∧ zonedInstNs z' = zonedInstNs z ∧
+      (TStrict z.utc.time → z' = z) := by
+  obtain ⟨_, ⟨r, r1, r2, riff, rok⟩, _, _, hwm⟩ := datetime_roundtrip_any_offset F hF z hz hw
+  have hR := hwm hm
+  have hzo : OffValid z.off := hz.2
+  unfold OffValid at hzo
+  obtain ⟨hu1, hu2, hu3, hu4⟩ := hz.1.2
+  -- the shown wall clock minus the offset is the UTC second (or the one after, same minute): in range
+  have hin : InRangeSecs (shownWallSecs z - roundMin z.off) := by
+    rw [hR]
+    have hur := instSecs_range z.utc hz.1
+    unfold shownWallSecs wallSecs
+    have hsm : Chrono.Spec.SECS_MIN = TS_MIN * 1 ∧ Chrono.Spec.SECS_MAX = TS_MAX * 1 := by decide +kernel
+    unfold InRangeSecs
+    have hmax := ts_max_val
+    have hmin := ts_min_val
+    unfold instSecs at hur ⊢
+    generalize dayNumOf z.utc.date = D at *
+    have : EPOCH_DAY = 719163 := rfl
+    split <;> omega
+  cases r with
+  | err =>
+    exfalso
+    rcases riff.mp rfl with h | h
+    · rw [hR] at h; omega
+    · exact h hin
+  | ok z' =>
+    obtain ⟨c1, c2, c3, c4, _, c6⟩ := rok z' rfl
+    refine ⟨z', r1, by rw [r2]; rfl, by rw [c1, hR], c2, by rw [c6, hR]; omega, ?_⟩
+    intro hs
+    have hsw : shownWallSecs z = wallSecs z ∧ shownWallFrac z = z.utc.time.frac := by
+      unfold shownWallSecs shownWallFrac wallSecs
+      have : ¬ (z.utc.time.frac ≥ 1000000000 ∧ (instSecs z.utc + z.off) % 60 ≠ 59) := by
+        intro hh
+        rcases hs.2 with h | h
+        · omega
+        · unfold instSecs at hh
+          generalize dayNumOf z.utc.date = D at *
+          have : EPOCH_DAY = 719163 := rfl
+          omega
+      rw [if_neg this, if_neg this]; exact ⟨by omega, rfl⟩
+    have hu : z'.utc = z.utc :=
+      Chrono.Proofs.ndt_unique z'.utc z.utc ⟨((Chrono.Proofs.dateInv_iff _).mp c2.1.1).1, c2.1.2⟩
+        ⟨((Chrono.Proofs.dateInv_iff _).mp hz.1.1).1, hz.1.2⟩
+        (by rw [c3, hsw.1, hR]; unfold wallSecs; omega) (by rw [c4, hsw.2])
+    cases z' with
+    | mk u o => cases z with
+      | mk u2 o2 =>
+        dsimp only at hu c1 hR
+        rw [hu, c1, hR]
+
+/-- **wall clock outside `NaiveDate`'s range** (values within a day of `MIN_UTC` / `MAX_UTC` seen through a
+non-zero offset; known finding F21), every such value, any offset, any time of day: serializing succeeds
+(finding F06, repaired) and deserializing the stored text answers `Err` — never a value, never a panic — for
+both targets.  With `datetime_roundtrip_any_offset` this decides the round trip of every well-formed
+zone-aware value. -/
+theorem datetime_roundtrip_wall_out_of_range (F : StrFormat) (hF : F.Faithful) (z : Zoned) (hz : ZInv z)
+    (ho : ¬ InRangeSecs (wallSecs z)) :
+    (∃ e, strSerializeW F DateTimeStr.serialize z = .ok (.ok e)) ∧
+    strRoundTrip F DateTimeStr.serialize DateTimeStr.deserialize_fixed z = .ok .err ∧
+    strRoundTrip F DateTimeStr.serialize DateTimeStr.deserialize_utc z = .ok .err := by
+  obtain ⟨text, hser, hread⟩ := serde_rt_out_of_range z hz ho
+  have h1 : strSerializeW F DateTimeStr.serialize z = .ok (.ok (F.putStr text)) := by
+    unfold strSerializeW; rw [hser]; rfl
+  have h2 : ∀ (v : List Nat → Res (SR Zoned)),
+      strRoundTrip F DateTimeStr.serialize v z = v text := by
+    intro v
+    unfold strRoundTrip
+    rw [h1]
+    show strDeserializeV F v (F.putStr text) = _
+    unfold strDeserializeV
+    rw [hF]
+  refine ⟨⟨_, h1⟩, ?_, ?_⟩
+  · rw [h2]; exact hread
+  · rw [h2]; unfold DateTimeStr.deserialize_utc; rw [hread]; rfl
+
+
+/-- **target `DateTime<Local>`** (`Deserialize for DateTime<Local>` = the same visitor followed by
+`with_timezone(&Local)`; `tzOff` = the offset the process time zone prescribes at a UTC instant, ANY function),
+every well-formed zone-aware value: the result is the result for the target `DateTime<FixedOffset>` with the
+UTC reading kept and the offset replaced by the local one — an error or a panic exactly where that one is;
+and on the domain of the property's instant clause (whole-minute offset, wall clock inside the range; leap
+representation on any second) it is a value with the SAME INSTANT at the local offset — the original UTC
+reading itself when the leap condition holds.  A `DateTime<Local>` *source* is the generic
+`Serialize for DateTime<Tz>` on `offset.fix()`, i.e. `DateTimeStr.serialize` on its fixed offset (which may
+carry seconds for local-mean-time eras: `datetime_roundtrip_any_offset`). -/
+theorem datetime_roundtrip_local (F : StrFormat) (hF : F.Faithful) (tzOff : NaiveDT → Int) (z : Zoned)
+    (hz : ZInv z) :
+    (∃ r, strRoundTrip F DateTimeStr.serialize DateTimeStr.deserialize_fixed z = .ok r ∧
+      strRoundTrip F DateTimeStr.serialize (DateTimeStr.deserialize_local tzOff) z =
+        .ok (r.map fun z' => ⟨z'.utc, tzOff z'.utc⟩)) ∧
+    (z.off % 60 = 0 → InRangeSecs (wallSecs z) →
+      ∃ z', strRoundTrip F DateTimeStr.serialize (DateTimeStr.deserialize_local tzOff) z = .ok (.ok z') ∧
+        z'.off = tzOff z'.utc ∧ zonedInstNs z' = zonedInstNs z ∧
+        (TStrict z.utc.time → z' = ⟨z.utc, tzOff z.utc⟩)) := by
+  have hmap := strRoundTrip_map F DateTimeStr.serialize DateTimeStr.visit_str
+    (fun z' : Zoned => z'.with_timezone (tzOff z'.utc)) z
+  have hloc : ∀ r, strRoundTrip F DateTimeStr.serialize DateTimeStr.deserialize_fixed z = .ok r →
+      strRoundTrip F DateTimeStr.serialize (DateTimeStr.deserialize_local tzOff) z =
+        .ok (r.map fun z' => ⟨z'.utc, tzOff z'.utc⟩) := by
+    intro r hr
+    have hr' : strRoundTrip F DateTimeStr.serialize DateTimeStr.visit_str z = .ok r := hr
+    show strRoundTrip F DateTimeStr.serialize (fun s => (DateTimeStr.visit_str s).bind fun r => .ok (r.map _)) z = _
+    rw [hmap, hr']
+    rfl
+  constructor
+  · by_cases hw : InRangeSecs (wallSecs z)
+    · obtain ⟨_, ⟨r, r1, _⟩, _⟩ := datetime_roundtrip_any_offset F hF z hz hw
+      exact ⟨r, r1, hloc r r1⟩
+    · obtain ⟨_, r1, _⟩ := datetime_roundtrip_wall_out_of_range F hF z hz hw
+      exact ⟨.err, r1, hloc _ r1⟩
+  · intro hm hw
+    obtain ⟨z', r1, _, c1, c2, c3, c4⟩ := datetime_roundtrip_instant F hF z hz hm hw
+    refine ⟨⟨z'.utc, tzOff z'.utc⟩, hloc _ r1, rfl, c3, ?_⟩
+    intro hs
+    rw [c4 hs]
+
+/-- **`string_forms_roundtrip_datetime` restated with Spec predicates only** (audit LOW-1): the hypothesis is
+`InRangeSecs (wallSecs z)` instead of the model call `Zoned.naive_local z = .ok l`, and the stored text is that
+of the valid naive date-time `l` at second `wallSecs z` with `z`'s fraction field. -/
+theorem string_forms_roundtrip_datetime_spec (F : StrFormat) (hF : F.Faithful) (z : Zoned) (hz : ZInv z)
+    (hm : WholeMinute z.off) (hs : TStrict z.utc.time) (hw : InRangeSecs (wallSecs z)) :
+    (∃ l, NDTInv l ∧ instSecs l = wallSecs z ∧ l.time.frac = z.utc.time.frac ∧
+      strSerializeW F DateTimeStr.serialize z = .ok (.ok (F.putStr (naiveText 84 l ++ zoneText z.off)))) ∧
+    strRoundTrip F DateTimeStr.serialize DateTimeStr.deserialize_fixed z = .ok (.ok z) ∧
+    strRoundTrip F DateTimeStr.serialize DateTimeStr.deserialize_utc z = .ok (.ok ⟨z.utc, 0⟩) := by
+  obtain ⟨l, g1, g2, g3, g4, g5, g6⟩ := Chrono.Proofs.naive_local_spec z hz
+  rw [if_pos hw] at g5
+  obtain ⟨a, b, c⟩ := string_forms_roundtrip_datetime F hF z hz hm hs l g5
+  exact ⟨⟨l, ⟨g6.mpr hw, g2.2⟩, g3, g4, a⟩, b, c⟩
+
+/-- non-vacuity of the whole-domain theorems, and their agreement with the recorded witnesses: the F20 value
+(offset +01:00:50: rounded to +01:01, instant 10 s earlier), an offset that rounds to zero but is not written
+`Z`, the F23 offset (rounded to a whole day: `Err`), the F24 value (`MIN_UTC` at +00:00:31: the shown wall
+clock minus the rounded offset is before `MIN_UTC`), a leap representation on second :30, and `MAX_UTC` at
++01:00 whose wall clock is outside the range -/
+example :
+    ZInv ⟨⟨dateOfYo 2014 205, ⟨41596, 0⟩⟩, 3650⟩ ∧ InRangeSecs (wallSecs ⟨⟨dateOfYo 2014 205, ⟨41596, 0⟩⟩, 3650⟩) ∧
+    roundMin 3650 = 3660 ∧ zoneTextAny 3650 = asciiBytes "+01:01" ∧
+    roundMin 29 = 0 ∧ zoneTextAny 29 = asciiBytes "+00:00" ∧ zoneTextAny (-29) = asciiBytes "-00:00" ∧
+    zoneTextAny 0 = asciiBytes "Z" ∧ roundMin (-30) = -60 ∧
+    roundMin 86399 = 86400 ∧ zoneTextAny (-86370) = asciiBytes "-24:00" ∧
+    ZInv ⟨NaiveDT.MIN, 31⟩ ∧ InRangeSecs (wallSecs ⟨NaiveDT.MIN, 31⟩) ∧
+    ¬ InRangeSecs (shownWallSecs ⟨NaiveDT.MIN, 31⟩ - roundMin 31) ∧
+    shownTime ⟨30, 1500000000⟩ = ⟨31, 500000000⟩ ∧ TValid ⟨30, 1500000000⟩ ∧ ¬ TStrict ⟨30, 1500000000⟩ ∧
+    shownWallSecs ⟨⟨dateOfYo 1970 1, ⟨30, 1500000000⟩⟩, 0⟩ = 31 ∧
+    ZInv ⟨NaiveDT.MAX, 3600⟩ ∧ ¬ InRangeSecs (wallSecs ⟨NaiveDT.MAX, 3600⟩) := by
+  unfold ZInv NDTInv OffValid InRangeSecs
+  decide +kernel
+
+
+/-- **`visit_str` on ARBITRARY text** (audit LOW-5; not only on text a writer produced): for every byte
+string, each of the four string-form visitors — and the `DateTime<Utc>` / `DateTime<Local>` targets built on
+`DateTimeVisitor` — answers an error or a VALID value, never a panic; and so does `Deserialize` through ANY
+text format (faithful or not), whatever it stored.  (Parser totality: Proofs/C15TotalL.lean, property C15.) -/
+theorem visit_str_never_panics (s : List Nat) (tzOff : NaiveDT → Int) (htz : ∀ u, OffValid (tzOff u)) :
+    (∃ r, NaiveDateStr.visit_str s = .ok r ∧ ∀ d, r = .ok d → DateInv d) ∧
+    (∃ r, NaiveTimeStr.visit_str s = .ok r ∧ ∀ t, r = .ok t → TValid t) ∧
+    (∃ r, NaiveDateTimeStr.visit_str s = .ok r ∧ ∀ dt, r = .ok dt → NDTInv dt) ∧
+    (∃ r, DateTimeStr.deserialize_fixed s = .ok r ∧ ∀ z, r = .ok z → ZInv z) ∧
+    (∃ r, DateTimeStr.deserialize_utc s = .ok r ∧ ∀ z, r = .ok z → ZInv z ∧ z.off = 0) ∧
+    (∃ r, DateTimeStr.deserialize_local tzOff s = .ok r ∧ ∀ z, r = .ok z → ZInv z ∧ z.off = tzOff z.utc) :=
+  ⟨Chrono.Proofs.SerdeVisit.date_total s, Chrono.Proofs.SerdeVisit.time_total s,
+    Chrono.Proofs.SerdeVisit.naive_total s, Chrono.Proofs.SerdeVisit.fixed_total s,
+    Chrono.Proofs.SerdeVisit.mapped_total s (fun _ => 0) (fun _ => by unfold OffValid; omega),
+    Chrono.Proofs.SerdeVisit.mapped_total s tzOff htz⟩
+
+/-- … through any text format, whatever was stored -/
+theorem deserialize_str_never_panics (F : StrFormat) (e : F.E) (tzOff : NaiveDT → Int)
+    (htz : ∀ u, OffValid (tzOff u)) :
+    (∃ r, strDeserializeV F NaiveDateStr.visit_str e = .ok r ∧ ∀ d, r = .ok d → DateInv d) ∧
+    (∃ r, strDeserializeV F NaiveTimeStr.visit_str e = .ok r ∧ ∀ t, r = .ok t → TValid t) ∧
+    (∃ r, strDeserializeV F NaiveDateTimeStr.visit_str e = .ok r ∧ ∀ dt, r = .ok dt → NDTInv dt) ∧
+    (∃ r, strDeserializeV F DateTimeStr.deserialize_fixed e = .ok r ∧ ∀ z, r = .ok z → ZInv z) ∧
+    (∃ r, strDeserializeV F DateTimeStr.deserialize_utc e = .ok r ∧ ∀ z, r = .ok z → ZInv z ∧ z.off = 0) ∧
+    (∃ r, strDeserializeV F (DateTimeStr.deserialize_local tzOff) e = .ok r ∧
+      ∀ z, r = .ok z → ZInv z ∧ z.off = tzOff z.utc) := by
+  unfold strDeserializeV
+  cases F.getStr e with
+  | none =>
+    exact ⟨⟨_, rfl, fun _ h => by cases h⟩, ⟨_, rfl, fun _ h => by cases h⟩, ⟨_, rfl, fun _ h => by cases h⟩,
+      ⟨_, rfl, fun _ h => by cases h⟩, ⟨_, rfl, fun _ h => by cases h⟩, ⟨_, rfl, fun _ h => by cases h⟩⟩
+  | some s => exact visit_str_never_panics s tzOff htz
+
+/-- non-vacuity: the hypotheses are met by a non-UTF-8 byte string and a local zone at +05:30 (the parsers
+are defined by well-founded recursion, so concrete readings are compared with the crate, ops `sd.*.de`, not
+evaluated in the kernel) -/
+example : ∃ r, DateTimeStr.deserialize_local (fun _ => 19800) [0xff, 0x00, 0x3a] = .ok r ∧
+    ∀ z, r = .ok z → ZInv z ∧ z.off = 19800 :=
+  (visit_str_never_panics [0xff, 0x00, 0x3a] (fun _ => 19800) (fun _ => by unfold OffValid; omega)).2.2.2.2.2
 
 /-- non-vacuity of the string-form theorems: the first date of the range (signed six-digit year), a leap
 second with a fraction, the last representable naive value, and the leap second 2016-12-31T23:59:60.5Z seen
